@@ -485,6 +485,37 @@ let handle_semw fields =
     end
   | _ -> raise (Parse "bad semw line")
 
+
+(* ---------- family: lit (literal values, C10) ---------- *)
+let relay_oracle fam input orc =
+  if orc <> "ok" then begin
+    if is_prefix "KNOWN " orc then
+      (match split_on ' ' orc with _ :: key :: _ -> known_hit fam key input | _ -> ())
+    else oracle_fail fam input orc
+  end
+let codes s = L.map (fun t -> n_of_int (int_of_string t)) (words s)
+let handle_lit fields =
+  match fields with
+  | [cls; txt; expected; impl; orc] ->
+    let input = cls ^ " | " ^ txt in
+    count_case input true; sample "lit" input impl;
+    (match cls with
+     | "int" | "intx" ->
+       let m = match Literals.int_value (codes txt) with Some v -> string_of_n v | None -> "none" in
+       let a = field "ast" impl in
+       if m <> a then mismatch "lit" input ("ast=" ^ a) ("ast=" ^ m)
+     | "bits" ->
+       let body = Literals.between_quotes (codes txt) in
+       (match body with
+        | Some b ->
+          let m = Printf.sprintf "str=%s;ty=BitArray D1 %s 1" (String.concat " " (L.map string_of_n b)) (string_of_n (Literals.bit_width b)) in
+          if m <> impl then mismatch "lit" input impl m;
+          if string_of_n (Literals.bit_width b) <> expected then oracle_fail "lit" input "FAIL C10: model width differs from the number of bits generated"
+        | None -> mismatch "lit" input impl "none")
+     | _ -> ());
+    relay_oracle "lit" input orc
+  | _ -> raise (Parse "bad lit line")
+
 (* ---------- main loop ---------- *)
 let () =
   Array.iter (fun a -> if a = "--nodedupe" then dedupe := false) Sys.argv;
@@ -504,6 +535,7 @@ let () =
              | "tree" -> handle_tree fields
              | "semt" -> handle_semt fields
              | "semw" -> handle_semw fields
+             | "lit" -> handle_lit fields
              | _ -> raise (Parse ("unknown family " ^ fam)))
           with Parse m -> report "DRIVER-ERROR" [m; line]; incr mismatches)
        | [] -> ()
